@@ -6,4 +6,5 @@
 EXTENDS Json, IOUtils, TLC, Sequences, Integers
 Trace == ndJsonDeserialize(IOEnv.TRACE_FILE)
 Rep(id, clause, ok) == IF ok THEN TRUE ELSE PrintT(<<"VIOL", id, clause>>)
+RepK3(id, clause, k, ok) == IF ok THEN TRUE ELSE PrintT(<<"VIOL", id, clause, k>>)
 =============================================================================
